@@ -129,8 +129,8 @@ class AllocatorAwarePointer
     {
         if (this != std::addressof(other))
         {
-            propagate_on_container_move_assignment(other);
             deallocate();
+            propagate_on_container_move_assignment(other);
             get() = other.release();
             size() = other.size();
         }
